@@ -149,4 +149,6 @@ class BondDescriptor(BigSMILESbase):
 
     @property
     def generable(self):
+        if self.transitions is not None and np.any(self.transitions < 0):
+            return False
         return self.weight >= 0
